@@ -131,6 +131,12 @@ int default_threads();
 // run fn on `n` fibers under the scheduler (what GOMP_parallel does)
 void parallel(int n, const std::function< void(int) > &fn);
 
+// make uninitialised memory deterministic and hostile: fill the unused part
+// of the current stack and (through M_PERTURB) every malloc'd block with the
+// given non-zero byte, so that a decision taken on uninitialised memory
+// behaves the same in a reused worker and in a fresh replay process
+void scrub_memory(int byte);
+
 // simulated clocks
 void clock_set(double t);
 void clock_advance(double dt);
